@@ -19,7 +19,7 @@ enum {
     CT_INPUTS, CT_CONFIGS, CT_STATES, CT_TRANS, CT_ERRSTATE_TRANS, CT_INIT_REJECTED, CT_INIT_ACCEPTED, CT_MERGED_FILL,
     CT_E_RANGE, CT_E_FORMAT, CT_E_NULL, CT_E_STATE, CT_E_WRONGTYPE, CT_E_MAXOBJ, CT_E_MAXARR,
     CT_SPANS_CHECKED, CT_REINIT_CHECKS, CT_REINIT_OTHER_BUFFER, CT_CB_CALLS, CT_CB_MAXRATIO, CT_LOOKUPS, CT_MAXSTATES,
-    CT_TOWER_RUNS, CT_MUTANTS, CT_IGNORED_OTHER_PROP, CT_OBS_CALLS,
+    CT_TOWER_RUNS, CT_MUTANTS, CT_IGNORED_OTHER_PROP, CT_OBS_CALLS, CT_STALE_ONLY, CT_GETTER_WRITES,
     CT_W_SEQS, CT_W_RUNS, CT_W_CALLS, CT_W_OVERFLOW_RUNS, CT_W_FIT_RUNS, CT_W_FALSE_CALLS, CT_W_ERR_RANGE, CT_W_ERR_FORMAT, CT_W_ERR_NULL,
     CT_W_REINIT_CHECKS, CT_W_STATES
 };
@@ -29,6 +29,7 @@ static const char *const ctr_names[VF_NCTR] = {
     "reached_error_WRONG_TYPE", "reached_error_MAX_DEPTH_OBJECT", "reached_error_MAX_DEPTH_ARRAY", "returned_spans_bounds_checked",
     "reinit_image_comparisons_same_buffer", "reinit_image_comparisons_other_buffer", "callback_invocations", "max_callbacks_minus_2x_bytes_advanced",
     "field_lookups", "max_states_one_configuration", "tower_runs", "mutant_inputs", "mismatches_left_to_other_property", "observer_getter_calls",
+    "reinit_images_differing_only_in_unobservable_bytes", "getters_that_wrote_into_the_parser_object",
     "writer_sequences", "writer_runs_seq_x_capacity", "writer_calls", "writer_overflow_runs", "writer_fitting_runs", "writer_calls_returning_false",
     "writer_reached_error_RANGE", "writer_reached_error_FORMAT", "writer_reached_error_NULL", "writer_reinit_checks", "writer_states"
 };
@@ -154,6 +155,21 @@ static bool same_as_fresh(const fresh_t *f, const uint8_t *buf, size_t len, mism
     if (memcmp(L.st, f->img.st, sizeof(binson_state) * (size_t) L.max_depth)) {
         int lvl = 0;
         for (; lvl < L.max_depth; lvl++) if (memcmp(&L.st[lvl], &f->img.st[lvl], sizeof(binson_state))) break;
+        /* raw bytes differ: only what a later call can observe counts (flags, array_depth, type, name, the value READ THROUGH
+         * the type); stale bytes of the value union under another type and padding do not */
+        bool observable = false;
+        for (int k = 0; k < L.max_depth && !observable; k++) {
+            const binson_state *x = &L.st[k], *y = &f->img.st[k];
+            if (x->flags != y->flags || x->array_depth != y->array_depth || x->current_type != y->current_type || x->current_name.bptr != y->current_name.bptr ||
+                (x->current_name.bptr && x->current_name.bsize != y->current_name.bsize)) { observable = true; lvl = k; }
+            else switch (x->current_type) {
+                case BINSON_TYPE_STRING: case BINSON_TYPE_BYTES: if (x->current_value.string_value.bptr != y->current_value.string_value.bptr || x->current_value.string_value.bsize != y->current_value.string_value.bsize) { observable = true; lvl = k; } break;
+                case BINSON_TYPE_INTEGER: case BINSON_TYPE_DOUBLE: if (x->current_value.integer_value != y->current_value.integer_value) { observable = true; lvl = k; } break;
+                case BINSON_TYPE_BOOLEAN: if (x->current_value.bool_value != y->current_value.bool_value) { observable = true; lvl = k; } break;
+                default: break;
+            }
+        }
+        if (!observable) { vf_count(CT_STALE_ONLY, 1); return true; }
         snprintf(mm->why, sizeof mm->why, "state[%d] differs from a fresh parser's (flags %x vs %x, array_depth %u vs %u, type %d vs %d, name offset %lld vs %lld)", lvl,
                  (unsigned) L.st[lvl].flags, (unsigned) f->img.st[lvl].flags, (unsigned) L.st[lvl].array_depth, (unsigned) f->img.st[lvl].array_depth,
                  (int) L.st[lvl].current_type, (int) f->img.st[lvl].current_type, (long long) vf_off(&L, L.st[lvl].current_name.bptr),
@@ -207,10 +223,8 @@ static bool observe_state(mismatch *mm, bool counting, const char *after)
         vf_snap img_after;
         vf_snap_save(&img_after, &L);
         if (memcmp(&before, &img_after, vf_snap_size(L.max_depth))) {
-            snprintf(mm->why, sizeof mm->why, "a typed getter modified the parser object after %s", after);
-            snprintf(mm->sig, sizeof mm->sig, "getter-writes");
-            mm->prop = "C01";
-            if (P_C01) return false;
+            /* allowed by C01 (the parser object is the library's to write); recorded only */
+            if (counting) vf_count(CT_GETTER_WRITES, 1);
         }
     }
     return true;
@@ -296,7 +310,7 @@ static bool do_op(shadow *sh, int op, mismatch *mm, bool counting)
     {
         volatile char here;
         uintptr_t top = (uintptr_t) &here, ctx = (uintptr_t) p->cb_context;
-        if (p->cb_context && ctx < top && top - ctx < (1u << 20)) {
+        if (p->cb && p->cb != count_cb && p->cb_context && ctx < top && top - ctx < (1u << 20)) {      /* a context nobody will call is harmless */
             snprintf(mm->why, sizeof mm->why, "after %s the parser still holds cb_context pointing %zu bytes below the caller's frame, into a dead stack frame (cb %s)", opname[op],
                      (size_t) (top - ctx), p->cb == NULL ? "NULL" : (p->cb == count_cb ? "= the caller's" : "= a library-internal function"));
             snprintf(mm->sig, sizeof mm->sig, "dangling-stack-context:%s", opname[op]);
